@@ -12,6 +12,9 @@ OPS = (C("node_port.py", "tys.py", "ops.py"), ["hugr.ops.DFG.outer_signature", "
                                                 "hugr.ops.DataflowBlock.nth_outputs", "hugr.ops.CFG.outer_signature", "hugr.ops.FuncDefn.inner_signature", "hugr.ops.Call.port_kind",
                                                 "hugr.ops.LoadFunc.port_kind", "hugr.ops.LoadConst.port_kind", "hugr.ops.DataflowOp.port_kind"])
 SERIAL = (C("node_port.py", "tys.py", "ops.py", "utils.py", "base.py", "serial.py"), ["hugr.hugr.base._order_port_offset", "hugr.hugr.base.Hugr._constrain_offset"])
+# creation of a dataflow container: Input then Output under the container, Input row = the container's input row; set_outputs hands the
+# wires to the Output node in order and makes the container's output row the Output node's row (graph-store mutators: trusted recorders)
+IO = (C("node_port.py", "build_io.py"), ["hugr.build.dfg.DfBase._init_io_nodes", "hugr.build.dfg.DfBase.set_outputs"])
 
 
 def run(tier, seed):
@@ -19,17 +22,20 @@ def run(tier, seed):
     res.trusted_base = [
         "pyvc encoding of the supported Python subset (DESIGN 2, A1)",
         "graph-store mutators as TRUSTED call recorders in the wiring contracts (ghost traces of add_link / add_state_order); what they do to the store is proved in C04",
+        "container creation / set_outputs (contracts/build_io.py): Hugr.add_node and DfBase._wire_up are trusted call recorders; parent_op / _output_op are trusted accessors naming the operation objects of the "
+        "container and Output node (assumed stable); DfParentOp._inputs / _set_out_types are interface contracts over ghost rows (the per-class rows are C06); Output.types is a trusted property",
         "ghost relation anc_or_self (reflexive, closed under parent) with its two defining facts assumed at the loop cursor",
         "specs/validate.py: the validity rules R1-R10 transcribed from the statement and the reference validator it cites - the oracle of the bounded run (the Rust validator is not available offline)",
         "specs/validate.py::hugr_from_doc: an independent reader of the serialized document following the reference reader's port rules",
     ]
     res.assumptions = ["the whole-program statement (every well-formed builder program yields a valid HUGR) is NOT proved: it is decided by the bounded run over random well-formed programs only",
                        "Block._wire_up_port (dominator-edge fallback), Cfg._init_impl, set_outputs / _set_out_types and the container output propagation are not under contract: bounded only"]
-    standard_flow(res, FILES, TARGETS, None, bounded_modules=[("bounded.c01", 600, 3000)], more=[OPS, SERIAL])
+    standard_flow(res, FILES, TARGETS, None, bounded_modules=[("bounded.c01", 600, 3000)], more=[OPS, SERIAL, IO])
     res.level = "other"
     res.explanation = ("Proved from the real source: _ancestral_sibling returns an ancestor-or-self of the target whose parent is the source's parent (or None); DfBase._wire_up_port adds exactly the value "
                        "link source -> target port and, exactly when that ancestor is not the target itself (the wire enters a nested region), the state-order edge from the source's node to that "
-                       "ancestor - and raises NoSiblingAncestor exactly when there is none; the container signatures and static-port kinds the row / edge-kind rules rest on (shared with C06) and the "
+                       "ancestor - and raises NoSiblingAncestor exactly when there is none; DfBase._init_io_nodes creates exactly an Input (row = the container's input row, with its count) and then an Output under the container, and DfBase.set_outputs hands "
+                       "the wires to the Output node in order and makes the container's output row the Output node's row (over a ghost trace of the graph-store calls, which C04 proves); the container signatures and static-port kinds the row / edge-kind rules rest on (shared with C06) and the "
                        "serialized port offsets (shared with C03). That every well-formed builder program (all builder kinds, nesting, Ext and Dom edges, partially used multi-output operations, "
                        "linear values) yields a HUGR - and a serialized document - satisfying rules R1-R10 is decided by a bounded run of random programs against the transcribed validator -> other.")
     return res.finish()
